@@ -120,7 +120,11 @@ def gen_case(rng):
                     # a tri-allelic site: heterozygous 1|2 or 0|2
                     t = rng.choice([(1, 2), (2, 1), (0, 2), (2, 0)])
                     al = ["C", "G"]
-                    if rng.random() < 0.25 and not only_snvs:
+                    if rng.random() < 0.35:
+                        # three ALT alleles: different heterozygous genotypes can have the same sum of allele indices (0|3 vs 1|2)
+                        al = ["C", "G", "T"]
+                        t = tuple(rng.sample(range(4), 2))
+                    elif rng.random() < 0.25 and not only_snvs:
                         # an STR-like site with many ALT alleles: allele indices of two digits (10..15)
                         k = rng.randint(10, 15)
                         al = ["A" + "CA" * j for j in range(1, k + 1)]
@@ -190,7 +194,8 @@ def gen_case(rng):
                 t = truth[i]
                 if P == 2 and f > 0 and max(t) >= 2 and rng.random() < 0.25:
                     # this file calls another heterozygous genotype at the multi-allelic site (0|2 where the others have 1|2, ...)
-                    t = rng.choice([x for x in [(0, 1), (1, 0), (0, 2), (2, 0), (1, 2), (2, 1)] if sorted(x) != sorted(t)])
+                    na = min(len(alts.get((c, pos[i]), ["C", "G"])), 4)
+                    t = rng.choice([(x, y) for x in range(na + 1) for y in range(na + 1) if x != y and sorted((x, y)) != sorted(t)])
                 al = tuple(t[cur_perm[b][h]] for h in range(P))
                 if P > 2 and rng.random() < 0.08:
                     al = list(al)
